@@ -602,7 +602,8 @@ int main(int argc, char** argv)
   spec.assumptions = {
     "standard trafo = multilinear (hypercube) / affine (simplex) interpolation of the cell vertices in FEAT's reference numbering (definition)",
     "points whose harness pre-image lies in the band (1e-9, 2e-4) outside a reference cell are skipped: InverseMapping's domain tolerance 1e-4 makes the expected answer ambiguous there",
-    "isoparametric trafo not covered"};
+    "isoparametric trafo: see c15_isoparam",
+    "not exercised (outside the statement of C15): Tiny algebra functions that no trafo/space evaluator calls, the CUDA variants of the evaluation helpers, the text of InverseMappingError, virtual destructors; width_directed is checked on affine cells along their edges only (definition: edge length)"};
   const char* vr = std::getenv("VERIF_REPO");
   const std::string mesh_dir = std::string(vr ? vr : "/repo") + "/data/meshes";
   const std::vector<std::string> mesh_files = list_mesh_files(mesh_dir);
